@@ -547,10 +547,22 @@ func (sched *StdScheduler) startExecutionLoop(ctx context.Context) {
 		fetchFailed = false
 		select {
 		case <-timer.C:
+			if ctx.Err() != nil {
+				// this run was stopped while the loop was busy; jobs belong to the next run
+				sched.logger.Info("Exit the execution loop")
+				return
+			}
 			sched.logger.Trace("Tick")
 			fetchFailed = !sched.executeAndReschedule(ctx)
 
 		case <-sched.interrupt:
+			if ctx.Err() != nil {
+				// this run was stopped: the signal is meant for the loop of the next run
+				sched.Reset()
+				timer.Stop()
+				sched.logger.Info("Exit the execution loop")
+				return
+			}
 			sched.logger.Trace("Interrupted waiting for next tick")
 			timer.Stop()
 
